@@ -87,14 +87,21 @@ def chopped(entity):
 
 
 def emit_all(emit):
+    """Order: the probe tables the *model* names (`c11Sketches`, `c11Shapes`) first — every probe instance is built
+    inside its own `emit.guard`, so a class that can no longer be constructed is only missing from the table (the
+    model then answers `bad-op` for it and `T_C11_sketch_table` / the probe theorems fail), the others stay; then
+    the tables only `Props/C11.lean` names: grid probes and the `ast` group of disk.py, each one guarded group."""
     import classy_blocks as cb
 
-    sk = []
-    for name, mk in sketch_probes().items():
+    guard = getattr(emit, "guard", None) or (lambda fn, *a, **k: fn(*a, **k))
+
+    def sketch_entry(name, mk):
         s = mk()
         faces = list(s.faces)
         grid = [[next(i for i, f in enumerate(faces) if f is g) for g in row] for row in s.grid]
-        sk.append((name, [list(map(int, q)) for q in s.indexes], grid, [list(c) for c in type(s).chops]))
+        return (name, [list(map(int, q)) for q in s.indexes], grid, [list(c) for c in type(s).chops])
+
+    sk = [e for e in (guard(sketch_entry, name, mk) for name, mk in sketch_probes().items()) if e is not None]
     emit(
         "c11Sketches",
         "List (String × List (List Nat) × List (List Nat) × List (List Nat))",
@@ -102,8 +109,7 @@ def emit_all(emit):
         "sketch class: (name, MappedSketch.indexes in faces order, Sketch.grid as face indexes, Sketch.chops)",
     )
 
-    shapes = []
-    for name, (make, calls) in shape_probes().items():
+    def shape_entry(name, make, calls):
         disp = []
         ent = make()
         seen = []
@@ -112,7 +118,10 @@ def emit_all(emit):
             now = chopped(ent)
             disp.append([x for x in now if x not in seen])
             seen = now
-        shapes.append((name, blocking(ent), disp))
+        return (name, blocking(ent), disp)
+
+    probes = guard(shape_probes) or {}
+    shapes = [e for e in (guard(shape_entry, name, make, calls) for name, (make, calls) in probes.items()) if e is not None]
     emit(
         "c11Shapes",
         "List (String × List (List Nat) × List (List (Nat × Nat)))",
@@ -122,14 +131,21 @@ def emit_all(emit):
         "resp. shapes[0].chop(0)/shapes[0].chop(1)/stack.chop())",
     )
 
-    grids = []
-    for n, m in GRID_SIZES:
-        for k in (1, 2):
-            grids.append((n, m, k, blocking(cb.ExtrudedStack(cb.Grid([0, 0, 0], [1, 1, 0], n, m), 1.0, k))))
-    emit("c11GridProbes", "List (Nat × Nat × Nat × List (List Nat))", grids, "ExtrudedStack(Grid(n, m), k): (n, m, k, blocking)")
+    # ---- tables named by Props/C11.lean only
+    def grid_group():
+        grids = []
+        for n, m in GRID_SIZES:
+            for k in (1, 2):
+                grids.append((n, m, k, blocking(cb.ExtrudedStack(cb.Grid([0, 0, 0], [1, 1, 0], n, m), 1.0, k))))
+        emit("c11GridProbes", "List (Nat × Nat × Nat × List (List Nat))", grids, "ExtrudedStack(Grid(n, m), k): (n, m, k, blocking)")
 
-    for name, typ, val, doc in disk_generator_tables():
-        emit(name, typ, val, doc)
+    guard(grid_group)
+
+    def disk_ast_group():
+        for name, typ, val, doc in disk_generator_tables():
+            emit(name, typ, val, doc)
+
+    guard(disk_ast_group)
 
 
 # ----------------------------------------------------------------------------- point generators (round 6)
